@@ -6,7 +6,7 @@ mod core;
 mod models;
 mod props;
 
-use crate::core::framework::{single_case_main, supervisor_main, worker_main, Check, Tier, WorkerArgs};
+use crate::core::framework::{batch_main, single_case_main, supervisor_main, worker_main, Check, Tier, WorkerArgs};
 
 #[global_allocator]
 static GLOBAL: crate::core::alloc::Counting = crate::core::alloc::Counting;
@@ -63,6 +63,15 @@ fn main() {
             let seed = arg_val(&args, "--seed").and_then(|s| s.parse().ok()).unwrap_or_else(env_seed);
             let idx = arg_val(&args, "--idx").and_then(|s| s.parse().ok()).unwrap_or(0);
             std::process::exit(single_case_main(check.as_mut(), tier, seed, idx));
+        }
+        "miri-batch" => {
+            let id = args.get(1).cloned().unwrap_or_else(|| usage());
+            let mut check: Box<dyn Check> = props::make(&id).unwrap_or_else(|| usage());
+            let tier = arg_val(&args, "--tier").and_then(|s| Tier::parse(&s)).unwrap_or(Tier::Thorough);
+            let seed = arg_val(&args, "--seed").and_then(|s| s.parse().ok()).unwrap_or_else(env_seed);
+            let from = arg_val(&args, "--from").and_then(|s| s.parse().ok()).unwrap_or(0);
+            let count = arg_val(&args, "--count").and_then(|s| s.parse().ok()).unwrap_or(1);
+            std::process::exit(batch_main(check.as_mut(), tier, seed, from, count));
         }
         "sockprobe" => {
             std::process::exit(props::c12::sockprobe_main(&args[1 ..]));
